@@ -941,6 +941,9 @@ class Enforcer:
         reloaded, data = _cache_handler.read_cached_file(
             self._file_cache, path, force_reload=force_reload)
         if reloaded or not self.rules:
+            # read_cached_file() hands back an empty dict, not text, when the
+            # file has disappeared; carry on as if the file were empty.
+            data = data or ''
             rules = Rules.load(data, self.default_rule)
             self.set_rules(rules, overwrite=overwrite, use_conf=True)
             rules_changed = True
